@@ -126,7 +126,12 @@ def layer2_cases(thorough):
     yield (3, 2, 3, 2, "lattice")
     yield (3, 3, 3, 2, "lattice")
     yield (3, 1, 2, 2, "lattice")
+    # levelmin cells 4 finest cells wide (levelmax - levelmin = 2): boxes around an oct boundary that are no wider than them
+    yield (4, 2, 4, 2, "lattice")
+    yield (4, 2, 3, 2, "lattice")
     if thorough:
+        yield (4, 3, 4, 2, "lattice")
+        yield (4, 1, 4, 2, "lattice")
         yield (3, 1, 3, 3, "pairs")
         yield (3, 2, 2, 2, "lattice")
 
@@ -134,6 +139,12 @@ def layer2_cases(thorough):
 def boxes_for(L, thorough):
     n = 2**L
     iv = intervals(n)
+    if L >= 4:
+        # boxes at most one levelmin=2 cell (4 finest cells) wide, placed around the oct boundary at 8, plus a few others
+        sub = [(7, 10), (6, 9), (5, 8), (8, 11), (7, 8), (6, 7), (8, 9), (7, 7), (9, 10), (4, 7), (0, 15)]
+        if thorough:
+            sub += [(3, 6), (11, 14), (12, 15), (0, 3), (2, 5), (10, 13)]
+        return list(itertools.product(sub, repeat=3))
     if L <= 2 or thorough:
         return list(itertools.product(iv, repeat=3))
     # quick, L=3: per-axis intervals of length 1,2,n plus those touching an edge; full product of those
